@@ -306,6 +306,11 @@ def err_kind(e):
         return 'Index'
     if isinstance(e, errors.UnsupportedFeatureError) and 'nested arrays are not supported' in msg:
         return 'NestedArr'
+    if isinstance(e, errors.QueryError) and any(x in msg for x in (
+            'possibly more than one element', 'possibly an empty set', 'can not take cross product of volatile',
+            'mutations are invalid', 'cannot be called on')):
+        # accepted by type inference, rejected by a cardinality / volatility / DML rule: outside C12's model
+        return 'NonType:' + '_'.join(msg.split()[:5])
     if isinstance(e, TypeError):
         return 'TypeError'
     if isinstance(e, (errors.InternalServerError, errors.SchemaError)):
